@@ -67,16 +67,31 @@ Proof. vm_compute. reflexivity. Qed.
 Fact nbw_default_as_modelled : F.nbw_default = "false".
 Proof. vm_compute. reflexivity. Qed.
 
-Fact parenthesis_level_body_as_modelled : F.parenthesis_level_body =
-  "lazy_static!{..} let mut level = 0; for caps in PARENTHESIS.captures_iter(s) { if let Some(_) = caps?.get(1) { level += 1; } else if level > 0 { level -= 1; } } Ok(level)".
+(* parenthesis_level, feature by feature: what Model.Sentence.plevel implements *)
+Fact pl_start_as_modelled : F.pl_start = "level = 0 (usize)".
+Proof. vm_compute. reflexivity. Qed.
+Fact pl_traversal_as_modelled : F.pl_traversal = "every match of PARENTHESIS.captures_iter(s), in order".
+Proof. vm_compute. reflexivity. Qed.
+Fact pl_open_as_modelled : F.pl_open = "group 1 took part => level += 1".
+Proof. vm_compute. reflexivity. Qed.
+Fact pl_close_as_modelled : F.pl_close = "otherwise level > 0 => level -= 1 (a closing bracket at level 0 is ignored)".
+Proof. vm_compute. reflexivity. Qed.
+Fact pl_result_as_modelled : F.pl_result = "Ok(level)".
 Proof. vm_compute. reflexivity. Qed.
 
 (* prohibited_bos: the model's prohibited_bos = end of the anchored match, 0 without one *)
 Fact prohibited_bos_result_as_modelled : F.prohibited_bos_result = "end of the match of PROHIBITED_BOS.find(s)?, 0 without a match".
 Proof. vm_compute. reflexivity. Qed.
 
-Fact continuous_phrase_body_as_modelled : F.continuous_phrase_body =
-  "lazy_static! { static ref QUOTE_MARKER: Regex = Regex::new(&format!(""(！|？|\\!|\\?|[{}])(と|っ|です)"", CLOSE_PARENTHESIS)).unwrap(); static ref EOS_ITEMIZE_HEADER: Regex = Regex::new(&format!(""([{}])([{}])\\z"", ALPHABET_OR_NUMBER, DOT)).unwrap(); } let last_char_len = s[..eos].chars().last().unwrap().to_string().len(); if let Some(mat) = QUOTE_MARKER.find(&s[(eos - last_char_len)..])? { if mat.start() == 0 { return Ok(true); } } let c = s[eos..].chars().nth(0).unwrap(); Ok((c == 'と' || c == 'や' || c == 'の') && EOS_ITEMIZE_HEADER.is_match(&s[..eos])?)".
+(* is_continuous_phrase, feature by feature (the two patterns are facts of their own: regex inventory + SentenceRegexFacts;
+   the characters of the itemisation rule are F.ITEM_FOLLOW): what Model.Sentence.continuous / quote_at / ends_an_dot implement *)
+Fact cp_last_char_as_modelled : F.cp_last_char = "last_char_len = UTF-8 length of the last character of s[..eos]".
+Proof. vm_compute. reflexivity. Qed.
+Fact cp_quote_rule_as_modelled : F.cp_quote_rule = "QUOTE_MARKER.find(&s[eos - last_char_len..])? = Some(m) with m.start() == 0 => Ok(true)".
+Proof. vm_compute. reflexivity. Qed.
+Fact cp_next_char_as_modelled : F.cp_next_char = "c = first character of s[eos..]".
+Proof. vm_compute. reflexivity. Qed.
+Fact cp_itemize_rule_as_modelled : F.cp_itemize_rule = "Ok(c is one of ITEM_FOLLOW && EOS_ITEMIZE_HEADER.is_match(&s[..eos])?)".
 Proof. vm_compute. reflexivity. Qed.
 
 (* SentenceIter::next, feature by feature: what Model.Sentence.iter implements *)
